@@ -230,3 +230,37 @@ func VerifC07Message() {
 	}
 	nd.Reach("C07.message")
 }
+
+// VerifC07NestedError: a registered tag that fails with a SourceError which itself carries no location
+// (the error of a nested render whose failing object is on its first line, parsed without a path) is
+// located at the tag: line = starting line plus the newlines before the tag, path as given — with and
+// without a path.
+func VerifC07NestedError() {
+	e := NewEngine()
+	inner := NewEngine()
+	e.RegisterTag("sub", func(c render.Context) (string, error) {
+		return inner.ParseAndRenderString("{{ 1 | divided_by: 0 }}", nil)
+	})
+	e.RegisterBlock("blk", func(c render.Context) (string, error) {
+		_, err := inner.ParseAndRenderString("{{ 'x' | no_such_filter }}", nil)
+		return "", err
+	})
+	start := nd.Int()
+	nd.Assume(start >= 0 && start < 1<<40)
+	path := []string{"", "dir/t.html"}[nd.Choice(2)]
+	k := nd.Choice(3)
+	src := []string{"a\n\n{% sub %}", "a\n{% if true %}\n{% sub %}{% endif %}", "{% for i in (1..1) %}\n\n\n{% blk %}x{% endblk %}{% endfor %}"}[k]
+	lines := []int{2, 2, 3}[k]
+	tpl, perr := e.ParseTemplateLocation([]byte(src), path, start)
+	nd.Assert(perr == nil, "parses")
+	if perr != nil {
+		return
+	}
+	_, err := tpl.RenderString(Bindings{})
+	nd.Assert(err != nil, "nested-failure-fails")
+	if err != nil {
+		nd.Assert(err.LineNumber() == start+lines, "nested-error-located-at-the-tag")
+		nd.Assert(err.Path() == path, "nested-error-path")
+	}
+	nd.Reach("C07.nestederror")
+}
